@@ -72,10 +72,14 @@ def opOf? : Term → Option Op
   | .list [.atom "val", n, p, pos] => do
       let _ ← natLe? 3 pos
       pure (.val (← netOf? n) (← pathOf? p))
-  | .list [.atom "show", st, n, p] => do pure (.display (← stateOf? st) (← netOf? n) (← pathOf? p))
+  | .list [.atom "show", st, n, p] => do pure (.display false (← stateOf? st) (← netOf? n) (← pathOf? p))
+  | .list [.atom "showl", st, n, p] => do pure (.display true (← stateOf? st) (← netOf? n) (← pathOf? p))
   | .list [.atom "show", st, n, p, pos] => do
       let _ ← natLe? 3 pos
-      pure (.display (← stateOf? st) (← netOf? n) (← pathOf? p))
+      pure (.display false (← stateOf? st) (← netOf? n) (← pathOf? p))
+  | .list [.atom "showl", st, n, p, pos] => do
+      let _ ← natLe? 3 pos
+      pure (.display true (← stateOf? st) (← netOf? n) (← pathOf? p))
   | .list [.atom "iter", f] => (famOf? f).map .iter
   | _ => none
 
@@ -83,7 +87,12 @@ def caseOf? : Term → Option Case
   | .list [.atom "case", la, .list (.atom "ops" :: ops)] => do
       let la ← natLe? 4294967295 la
       let ops ← ops.mapM opOf?
-      pure ⟨la, ops⟩
+      pure ⟨la, la, ops⟩
+  | .list [.atom "case", la, ga, .list (.atom "ops" :: ops)] => do
+      let la ← natLe? 4294967295 la
+      let ga ← natLe? 4294967295 ga
+      let ops ← ops.mapM opOf?
+      pure ⟨la, ga, ops⟩
   | _ => none
 
 /-! observations -/
